@@ -42,6 +42,44 @@ NEEDS = {
  "C18b": ("C18", "reset (MinReset/ZeroReset/FullReset/init()) after a stream cut mid-way with bits still pending: bit_buf not cleared"),
  "C19a": ("C19", "stop-at-block-boundary with a Huffman block whose end-of-block code is decoded outside the fast loop (< 14 input bytes or < 259 output bytes left in that call)"),
  "C19b": ("C19", "serde snapshot taken while suspended on NeedsMoreInput inside the code-length section of a dynamic block header (len_codes skipped)"),
+ "C01c": ("C01", "four adjacent literals with 15-bit codes in one emission group of compress_lz_codes plus >= 4 bits left over from the previous group (literal loop 0..3 -> 0..4 overflows the 64-bit accumulator): needs a Fibonacci-like byte histogram with the once-only bytes next to each other"),
+ "C02c": ("C02", "dictionary mirror kept one byte short: RLE matcher standing on ring offset 32767 with a full look-ahead whose run ends exactly at mirror index 256 while the stale mirror byte equals the run byte"),
+ "C02d": ("C02", "Full flush whose history reset happens before flush_block: the block then cannot fall back to a stored block (needs an expanding block at a Full flush)"),
+ "C02e": ("C02", "buffer output, an earlier block already sent through the local buffer, then a Sync/Full/Partial flush with no input consumed since the last block (flush_ofs not reset): stale bytes emitted instead of the marker"),
+ "C03c": ("C03", "stored block whose first payload bytes are still in the bit buffer (look-ahead after a Huffman block): only one of them is taken from the bit buffer"),
+ "C03d": ("C03", "a literal/length code with about 270 of 286 symbols longer than 10 bits (overflow tree of the decoder capped at 512 entries)"),
+ "C03e": ("C03", "ring mode (32 KiB ring or the inflate() wrapper), ring already wrapped, a length-3 match whose source starts on ring index 32766 or 32767"),
+ "C03f": ("C03", "the last byte that fits the caller's exact-size buffer / limit is the last payload byte of a stored block (RawMemcpy1 tests 'region full' before 'block finished')"),
+ "C04c": ("C04", "dynamic block whose last code-length repeat runs past HLIT+HDIST (clamped instead of rejected)"),
+ "C04d": ("C04", "over-subscribed code made of one-bit codes only (three codes of length 1)"),
+ "C05c": ("C05", "first inflate() call is Finish with too little output (Err(Buf)), then another call on the same state without reset: the failed stream comes back to life"),
+ "C05d": ("C05", "ring mode, match distance exactly the ring size, decoded in the fast loop, length other than 3: panic in apply_match"),
+ "C06c": ("C06", "zlib stream, chunk boundary after 1-3 of the 4 trailer bytes and >= 4 bytes in the next chunk: consumed count drifts by the part already read"),
+ "C06d": ("C06", "zlib stream followed by unrelated bytes in the same slice, 5-7 whole bytes of look-ahead in the bit buffer at the end of the last block: the bytes beyond the trailer are reported consumed"),
+ "C07c": ("C07", "codes of 12+ bits and an input slice that ends inside such a code with exactly code_len - 1 bits available (slow refill path reads a bit it does not have)"),
+ "C07d": ("C07", "inflate() wrapper: decoder reaches Done while the caller's output is too small and the tail needs two or more further grants: StreamEnd reported while data is still held back"),
+ "C08d": ("C08", "decompress_with_limit with out_pos + out_max < out.len(): a match decoded on the slow path that crosses the end of the budget is copied in full"),
+ "C09c": ("C09", "ring buffer of >= 64 KiB without the non-wrapping flag and a zlib header with CINFO 8..15 (window limit replaced by the buffer size)"),
+ "C09d": ("C09", "compressor configured with DataFormat::ZLibIgnoreChecksum (with_format_and_level / set_format_and_level): raw stream, no header, no trailer"),
+ "C10c": ("C10", "a block whose optimal Huffman tree is deeper than 15 levels (Fibonacci-like counts): enforce_max_code_size sums an empty range, over-long codes keep size 0"),
+ "C10d": ("C10", "compressor created with zero probes (level 0 / HuffmanOnly / new(0)) then switched to level >= 2 by a setter: dict.max_probes never updated, no matches found"),
+ "C11c": ("C11", "zlib compressor started at level 0 / HuffmanOnly (header declares a 256-byte window), header flushed, level raised mid-stream, later input repeats further back than 256 bytes"),
+ "C11d": ("C11", "level 1, window_bits 12..14, a mid-stream flush that ends a fast-path chunk with 1-3 trailing literals, next call starts with data that also occurs window+1..window+3 back"),
+ "C12c": ("C12", "a Sync/Full/Partial call whose last input byte triggers an internal block cut into a too-small output buffer, a draining call, then the same flush again with no input: skipped as 'repeated flush'"),
+ "C12d": ("C12", "Sync flush through deflate() when the pending block ends on a byte boundary (stored block, or 1 in 8 by chance): mapped to SyncOpt, marker omitted"),
+ "C13c": ("C13", "first inflate() call is Finish with an output buffer smaller than the plaintext (Err(Buf)), caller retries with more room, rest of the stream refers back to bytes delivered by call 1"),
+ "C13d": ("C13", "raw stream > 32 KiB whose output crosses the window boundary mid-match with all input consumed, then an empty-input call with None/Sync: Err(Buf) forever"),
+ "C14c": ("C14", "an earlier non-Finish call left output parked in the compressor (flush into a 1-12 byte buffer), then Finish with no new input and plenty of room returns Ok without finishing"),
+ "C15c": ("C15", "level 1, multi-block input with shifting statistics (>= 1 MB of bytes >= 32, then random bytes < 32): stale symbol counters make later blocks expand beyond the bound"),
+ "C15d": ("C15", "strategy Fixed, level >= 2, incompressible bytes >= 144, n > 32768: blocks cut at 32 KiB have left the window, stored fallback dead"),
+ "C16c": ("C16", "compressor whose previous flags were raw deflate, switched to zlib by exactly one set_format_and_level call: running Adler-32 never computed"),
+ "C16d": ("C16", "mz_inflate returning MZ_BUF_ERROR after writing bytes (MZ_FINISH on a non-first call with too little output): stream.adler not refreshed"),
+ "C17c": ("C17", "tinfl_decompress_mem_to_heap with output > 128 bytes (growth loop runs twice) and a declared input length shorter than the stream / ending at a guard page: reads past the declared input"),
+ "C17d": ("C17", "a refused misuse call (other kind, custom allocator) in the middle of a stream, then another legitimate call: the stream state was dropped by the refusal"),
+ "C18c": ("C18", "previous stream ended with Finish, then reset(), then a first call with a flush other than Finish: BadParam"),
+ "C18d": ("C18", "previous inflate stream abandoned with decoded bytes still undelivered, reset_as(MinReset), first call not Finish: stale plaintext of the previous stream is returned"),
+ "C19c": ("C19", "stop-at-block-boundary on a stream with an empty non-final stored block (sync marker): no stop reported for it"),
+ "C19d": ("C19", "InflateState clone taken shortly after the 32 KiB window wrapped, then a match reaching back past the wrap point (hand-written Clone drops the previous lap)"),
 }
 
 def main():
